@@ -273,7 +273,7 @@ namespace bluetoe {
         {
         public:
             notification_queue_impl()
-                : state_( notification_queue_entry_type::empty )
+                : state_( 0 )
             {
             }
 
@@ -282,10 +282,8 @@ namespace bluetoe {
                 static_cast< void >( idx );
                 assert( idx == 0 );
 
-                const bool result = state_ == notification_queue_entry_type::empty;
-
-                if ( result )
-                    state_ = notification_queue_entry_type::notification;
+                const bool result = ( state_ & notification_bit ) == 0;
+                state_ |= notification_bit;
 
                 return result;
             }
@@ -294,35 +292,43 @@ namespace bluetoe {
             {
                 static_cast< void >( idx );
                 assert( idx == 0 );
-                const bool result = state_ == notification_queue_entry_type::empty;
 
-                if ( result )
-                    state_ = notification_queue_entry_type::indication;
+                const bool result = ( state_ & indication_bit ) == 0;
+                state_ |= indication_bit;
 
                 return result;
             }
 
             std::pair< notification_queue_entry_type, std::size_t > dequeue_indication_or_confirmation( std::size_t offset, std::size_t& outstanding_confirmation )
             {
-                const auto result = state_ == notification_queue_entry_type::notification || ( state_ == notification_queue_entry_type::indication && outstanding_confirmation == details::no_outstanding_indicaton )
-                    ? std::pair< notification_queue_entry_type, std::size_t >{ static_cast< notification_queue_entry_type >( state_ ), offset }
-                    : std::pair< notification_queue_entry_type, std::size_t >{ notification_queue_entry_type::empty, 0 };
-
-                if ( result.first == notification_queue_entry_type::indication )
+                if ( ( state_ & indication_bit ) && outstanding_confirmation == details::no_outstanding_indicaton )
+                {
                     outstanding_confirmation = offset;
+                    state_ &= ~indication_bit;
+                    return { notification_queue_entry_type::indication, offset };
+                }
 
-                if ( result.first != notification_queue_entry_type::empty )
-                    state_ = notification_queue_entry_type::empty;
+                if ( state_ & notification_bit )
+                {
+                    state_ &= ~notification_bit;
+                    return { notification_queue_entry_type::notification, offset };
+                }
 
-                return result;
+                return { notification_queue_entry_type::empty, 0 };
             }
 
             void clear_indications_and_confirmations()
             {
-                state_ = notification_queue_entry_type::empty;
+                state_ = 0;
             }
         private:
-            notification_queue_entry_type state_;
+            enum char_bits : std::uint8_t {
+                notification_bit = 0x01,
+                indication_bit   = 0x02
+            };
+
+            // a notification and an indication can be pending at the same time
+            std::uint8_t state_;
         };
 
         template < int C >
